@@ -287,6 +287,9 @@ func clusterRun(f []string) string {
 			fc.Delay(n, time.Duration(ms)*time.Millisecond)
 			continue
 		case '{', '}':
+			if (t == "{") == pipelining || len(t) != 1 {
+				return "bad-op"
+			}
 			if t == "{" {
 				pipelining = true
 			} else {
@@ -368,6 +371,9 @@ func clusterRun(f []string) string {
 				}
 			}
 		}
+	}
+	if pipelining {
+		return "bad-op" // '{' without '}'
 	}
 	out := strings.Join(replies, ",")
 	if out == "" {
